@@ -107,6 +107,9 @@ type Scenario struct {
 	// load error (per version) belongs to
 	RuleFiles     []string          `json:"rule_files"`
 	DirectErrFile map[string]string `json:"direct_err_file"`
+	// -e sweep scenarios: the index of the text in the pool and whether the pool expects it not to load
+	ESweep  int  `json:"esweep"` // -1: not a sweep scenario
+	EBroken bool `json:"e_broken"`
 }
 
 type pkgT struct {
@@ -192,6 +195,7 @@ func pbn1(x interface{})     {}
 func psz(x interface{})      {}
 func ppk(x interface{})      {}
 func pbn2(x interface{})     {}
+func pfmt(f string, args ...interface{}) string { return f }
 
 type chain struct{}
 
@@ -221,6 +225,17 @@ func f(a, b int) int {
 	psz(int8(a))
 	psz("str")
 	ppk(a)
+	_ = pd1(a % b)
+	_ = pd1(a%7) % pd1(b)
+	b %= 5
+	pfmt("%d items", a)
+	pfmt("%d items", b, a)
+	pfmt("%%", a)
+	pfmt("%", b)
+	pfmt("100%", a)
+	pfmt("%s=%v", "k", b)
+	pfmt("%q and %[1]T", a)
+	pfmt("no verb", a)
 	legacy(1).then(2)
 	legacy(a).then(b).then(5)
 	if a == a {
@@ -236,6 +251,8 @@ func g(s string) string {
 	/* TODO block */
 	pa1(s + "x")
 	pb1(s + s)
+	pfmt("%d items", len(s))
+	pfmt("%5.2f%%", len(s)%3)
 	return s + s
 }
 `, `package pb
@@ -463,7 +480,13 @@ func main() {
 	e2eN := flag.Int("e2en", 3, "number of end-to-end scenarios")
 	fakeDir := flag.String("fakedir", "", "directory of the harness fake modules")
 	repoSum := flag.String("reposum", "", "go.sum of the repository")
+	esweep := flag.Bool("esweep", false, "scenario number k of the run loads the k-th -e text of the pool (short histories)")
+	flag.IntVar(&eSweepLen, "esweeplen", 0, "print the size of the -e pool and exit")
 	flag.Parse()
+	if eSweepLen != 0 {
+		fmt.Println(len(eTexts))
+		return
+	}
 	if *tmp == "" {
 		fmt.Fprintln(os.Stderr, "need -tmp")
 		os.Exit(3)
@@ -488,7 +511,7 @@ func main() {
 		rng := rand.New(rand.NewSource(*seed*7919 + int64(id)))
 		sc := Scenario{ID: id, NoReset: *noreset, AllGroups: map[string][]string{}, DirectErr: map[string]string{},
 			Direct: map[string]map[string][]DirectReport{}, LoadedByVer: map[string][]string{},
-			DirectErrFile: map[string]string{}}
+			DirectErrFile: map[string]string{}, ESweep: -1}
 		dir := filepath.Join(*tmp, fmt.Sprintf("sc%d", id))
 		os.MkdirAll(dir, 0o755)
 
@@ -505,8 +528,18 @@ func main() {
 			fileGroups[i%nfiles] = append(fileGroups[i%nfiles], g)
 		}
 		var fileNames []string
+		// the base name of a rules file is part of every decorated message: names that would mean something to a
+		// format / a template / a shell
+		nameStyle := rng.Intn(4)
 		for i := range fileGroups {
-			fileNames = append(fileNames, filepath.Join(dir, fmt.Sprintf("rules%d.go", i)))
+			base := fmt.Sprintf("rules%d.go", i)
+			switch nameStyle {
+			case 1:
+				base = fmt.Sprintf("r%%d%%%%s-%d.go", i)
+			case 2:
+				base = fmt.Sprintf("100%%_{{.}}$x-%d.go", i)
+			}
+			fileNames = append(fileNames, filepath.Join(dir, base))
 		}
 		// one scenario in three imports a rule bundle under some prefix: its groups are named prefix/name
 		var bundlePrefix *string
@@ -544,6 +577,9 @@ func main() {
 			mode = "none"
 		case 2:
 			mode = "rules+e"
+		}
+		if *esweep {
+			mode = "e"
 		}
 		sc.Mode = mode
 		fl := Flags{Enable: nameList(rng, groups, true), Disable: nameList(rng, groups, false)}
@@ -594,9 +630,22 @@ func main() {
 		if mode == "rules" || mode == "rules+e" {
 			sc.RuleFiles = append([]string{}, fileNames...)
 		}
-		eRule := "m.Match(`pa1($*_)`)"
+		et := eTexts[rng.Intn(len(eTexts))]
+		if *esweep {
+			sc.ESweep = (id - eSweepBase + len(eTexts)*eSweepBase) % len(eTexts)
+			et = eTexts[sc.ESweep]
+			fl.Enable, fl.Disable = eEnable(rng)
+			fl.Force = false
+			fl.Go = pick(rng, []string{"", "", "1.18", "1.21"})
+		}
+		if et.broken && (mode == "e" || mode == "rules+e") {
+			// a group that is filtered out is not compiled: whether its pattern parses would go unnoticed
+			fl.Enable, fl.Disable = "<all>", ""
+		}
+		eRule := et.text
 		if mode == "e" || mode == "rules+e" {
 			fl.E = eRule
+			sc.EBroken = et.broken
 		}
 		sc.Flags = fl
 		_, gerr := ruleguard.ParseGoVersion(fl.Go)
@@ -694,6 +743,10 @@ func main() {
 		}
 		nseq := 2 + rng.Intn(4)
 		parFirst := rng.Intn(4) == 0 // parallel burst on a cold cache
+		if *esweep {
+			// every package once
+			nseq = len(pkgNames)
+		}
 		doPar := func() {
 			writeRules(version)
 			np := *par
@@ -722,6 +775,9 @@ func main() {
 		for i := 0; i < nseq; i++ {
 			writeRules(version)
 			st := Step{Kind: "seq", Pkg: pkgNames[rng.Intn(len(pkgNames))], Version: version}
+			if *esweep {
+				st.Pkg = pkgNames[i%len(pkgNames)]
+			}
 			st.Diags, st.Err, st.Panic = runPass(pkgs[st.Pkg])
 			observe(&st)
 			sc.Steps = append(sc.Steps, st)
@@ -762,4 +818,9 @@ func main() {
 }
 
 func tokenPos(i int) token.Pos { return token.Pos(i) }
+
+var eSweepLen int
+
+// scenario eSweepBase+k of an -esweep run loads the k-th text of the pool
+const eSweepBase = 5000
 
